@@ -11,8 +11,8 @@ import numpy as np
 
 X_ALPHA = [-1.0, 0.0, 0.5, 1.0, 2.0, 10.0, 1e3]
 Y_MULTISET = [-2.0, 0.0, 1.0, 1.0, 5.0]
-X_LOG = [0.5, 1.0, 2.0, 10.0, 1e3]                # positive part of X_ALPHA (log10 is taken of the data)
-Y_LOG_MULTISET = [0.01, 0.5, 1.0, 1.0, 5.0]       # positive, contains a tie and values on both sides of 1 (log sign change)
+X_LOG = [1e-5, 0.5, 1.0, 10.0, 1e3]               # positive, 8 decades incl. a value below 1e-4 (log10 is taken of the data)
+Y_LOG_MULTISET = [1e-6, 0.01, 1.0, 1.0, 500.0]    # positive, 8.7 decades, a tie, values on both sides of 1 (log sign change)
 
 # interp1d kinds that scipy offers + the spline order each needs (n points > order)
 INTERP1D_KINDS = ["linear", "nearest", "nearest-up", "zero", "slinear", "quadratic", "cubic", "previous", "next"]
@@ -71,13 +71,14 @@ def scale_of(y):
     return max(1.0, float(np.max(np.abs(y))))
 
 
-def judge_values(kind_key, x, y, vals_sup, vals_grid, grid):
+def judge_values(kind_key, x, y, vals_sup, vals_grid, grid, relative=False):
     """clauses 'support_points' and 'within_neighbours' on already evaluated numbers.
-    vals_sup: c(x_i); vals_grid: c(g) for every (tag, g) in grid. Returns list of (clause, detail)."""
+    vals_sup: c(x_i); vals_grid: c(g) for every (tag, g) in grid. Returns list of (clause, detail).
+    relative=True (logarithmic classes, data over many decades): tolerance 1e-9 relative to each value itself."""
     bad = []
     sc = scale_of(y)
     for xi, yi, vi in zip(x, y, vals_sup):
-        if not (math.isfinite(vi) and abs(vi - yi) <= RTOL * max(sc, abs(yi))):
+        if not (math.isfinite(vi) and abs(vi - yi) <= RTOL * (abs(yi) if relative else max(sc, abs(yi)))):
             bad.append(("support_points", {"x_i": xi, "y_i": yi, "value": float(vi)}))
             break
     if kind_key in SHAPE_PRESERVING and monotone(y):
@@ -86,8 +87,8 @@ def judge_values(kind_key, x, y, vals_sup, vals_grid, grid):
             while j + 1 < len(x) - 1 and g >= x[j + 1]:
                 j += 1
             lo, hi = min(y[j], y[j + 1]), max(y[j], y[j + 1])
-            tol = RTOL * sc
-            if not (math.isfinite(v) and lo - tol <= v <= hi + tol):
+            tol_lo, tol_hi = (RTOL * abs(lo), RTOL * abs(hi)) if relative else (RTOL * sc, RTOL * sc)
+            if not (math.isfinite(v) and lo - tol_lo <= v <= hi + tol_hi):
                 bad.append(("within_neighbours", {"x": g, "value": float(v), "interval": [x[j], x[j + 1]],
                                                   "neighbours": [y[j], y[j + 1]]}))
                 break
